@@ -82,7 +82,8 @@ fn reader_op(rng: &mut Rng, k: usize, l: u64) -> COp {
 pub fn gen_case(prop: &str, seed: u64, tier: &str, _run: u64) -> Case {
     let mut rng = Rng::new(seed);
     let thorough = tier == "thorough";
-    let schedules = if thorough { 600 } else { 150 };
+    // thorough: 10x the programs at 2x the schedules each (20x the executions of the quick tier)
+    let schedules = if thorough { 300 } else { 150 };
     let sseed = rng.next();
     // C11: one third of the programs race on a directory that does not exist yet
     let fresh_dir = (prop == "C11" && Rng::new(seed ^ 0x11).chance(1, 3)) || (prop == "C19" && Rng::new(seed ^ 0x19).chance(3, 4));
@@ -274,7 +275,7 @@ pub fn gen_case(prop: &str, seed: u64, tier: &str, _run: u64) -> Case {
 pub fn spec(prop: &str) -> Option<Spec> {
     let s = |id, level, q, t, rule| Some(Spec { id, build: "conc", level, quick_runs: q, thorough_runs: t, rule });
     match prop {
-        "C04" => s("C04", "exploration", 400, 4000, "seeded programs of 2-4 tasks x 1-3 writer operations (puts biased to the same key / same content, removes, range removes, checkpoints, orphan clean-up) over 3 keys / 3 contents with a pre-history that leaves shared blobs, N in {1,2,3,10000}; 150 (quick) / 600 (thorough) seeded schedules per program under uniform / sticky / PCT / targeted strategies; MON-no-dangling after every step + end-state readable + linearizable; evaluation = one schedule; distinct = distinct (context-switch sequence, final state) fingerprints"),
+        "C04" => s("C04", "exploration", 400, 4000, "seeded programs of 2-4 tasks x 1-3 writer operations (puts biased to the same key / same content, removes, range removes, checkpoints, orphan clean-up) over 3 keys / 3 contents with a pre-history that leaves shared blobs, N in {1,2,3,10000}; 150 (quick) / 300 (thorough) seeded schedules per program under uniform / sticky / PCT / targeted strategies; MON-no-dangling after every step + end-state readable + linearizable; evaluation = one schedule; distinct = distinct (context-switch sequence, final state) fingerprints"),
         "C05" => s("C05", "exploration", 400, 4000, "programs of 2-4 tasks, <= 9 operations, <= 2 keys, every written value unique and of distinct size; readers (get/get_size/get_range/get_reader) against overwriting and removing writers on the hot key; invoke/response stamped by the scheduler's step counter; every read must be Ok and attributable; Wing-Gong search against the map model with two-point remove/remove_range; evaluation = one schedule"),
         "C06" => s("C06", "exploration", 300, 3000, "concurrent part: long-lived readers (first byte read, then drained after further scheduling points) against overwriting / removing writers of the same key; bytes must be one written content in full; MON-cas-immutable at every step"),
         "C07" => s("C07", "exploration", 300, 3000, "concurrent part: at the end of every error-free schedule of C04-style programs the files under cas/ are exactly the referenced blobs (plus planted orphans no clean-up removed) and staging/ is empty"),
